@@ -378,7 +378,7 @@ func (r *runner) op(o string) string {
 	kind := o[0]
 	rest := strings.Split(o[1:], ":")
 	mb := 0
-	if kind != 'v' {
+	if kind != 'v' && kind != 'w' {
 		mb = vh.AtoI(rest[0])
 	}
 	var tok string
@@ -437,10 +437,86 @@ func (r *runner) op(o string) string {
 		if err != nil {
 			tok += ";" + errClass(err)
 		}
+	case 'w':
+		return r.visitStop(vh.AtoI(rest[0]), len(rest) > 1 && rest[1] == "1")
 	default:
 		tok = "BADOP"
 	}
 	return tok + r.evTokens(kind == 'p')
+}
+
+// visitStop is the operation w<k>:<mut> (last operation of a history): VisitMailboxes with a visitor
+// that returns FALSE at its k-th non-empty mailbox (the walk must end there) and, with mut=1, removes
+// the oldest message of every mailbox it is handed. Which mailboxes come first is the store's
+// business (map / readdir order), so the observation counts:
+//
+//	W<handed over until the stop>:<calls after the visitor said stop>:<1 if every mailbox handed
+//	  over showed exactly its listing>:<mailboxes that afterwards lack exactly their oldest
+//	  message>:<mailboxes unchanged>:<mailboxes changed otherwise>:<deleted events>
+func (r *runner) visitStop(k int, mut bool) string {
+	before := make([][]string, len(r.names))
+	beforeView := make([]string, len(r.names))
+	for i, n := range r.names {
+		ms, _ := r.store.GetMessages(n)
+		for _, m := range ms {
+			before[i] = append(before[i], m.ID())
+		}
+		beforeView[i] = r.views(i, ms)
+	}
+	handed, after, good := 0, 0, true
+	stopped := false
+	seen := map[int]bool{}
+	err := r.store.VisitMailboxes(func(ms []storage.Message) bool {
+		if len(ms) == 0 {
+			return !stopped
+		}
+		if stopped {
+			after++
+			return false
+		}
+		handed++
+		i, ok := r.nameI[ms[0].Mailbox()]
+		if !ok || seen[i] || r.views(i, ms) != beforeView[i] {
+			good = false
+		} else {
+			seen[i] = true
+			if mut {
+				if e := r.store.RemoveMessage(r.names[i], ms[0].ID()); e != nil {
+					good = false
+				}
+			}
+		}
+		if handed >= k {
+			stopped = true
+			return false
+		}
+		return true
+	})
+	if err != nil {
+		good = false
+	}
+	lost, same, other := 0, 0, 0
+	for i, n := range r.names {
+		ms, _ := r.store.GetMessages(n)
+		var ids []string
+		for _, m := range ms {
+			ids = append(ids, m.ID())
+		}
+		switch {
+		case strings.Join(ids, ",") == strings.Join(before[i], ","):
+			same++
+		case len(before[i]) > 0 && strings.Join(ids, ",") == strings.Join(before[i][1:], ","):
+			lost++
+		default:
+			other++
+		}
+	}
+	del, _, _ := r.log.flush(r.host)
+	g := "0"
+	if good {
+		g = "1"
+	}
+	return fmt.Sprintf("W%d:%d:%s:%d:%d:%d:%d", handed, after, g, lost, same, other, len(del))
 }
 
 var dirSeq int
